@@ -20,7 +20,7 @@ Record stubsum := StubSum {
 }.
 
 (* what the merged annotation of one position should be, from the distinct traced types of that position *)
-Record posin := PosIn { p_qualname : string; p_param : string; p_types : list ty }.
+Record posin := PosIn { p_qualname : string; p_param : string; p_default_none : bool; p_types : list ty }.
 
 Record scase := SCase {
   c_k : nat;
@@ -59,11 +59,15 @@ Definition resolves (s : stubsum) : bool :=
                     && match f_ret f with Some None => false | _ => true end) (s_funcs s).
 
 (* model of one position: shrink_top of the distinct traced types, then the default chain *)
+(* render_parameter shows a parameter whose default is None as Optional[...] of its annotation *)
+Definition shown (default_none : bool) (t : ty) : ty := if default_none then union_mk [t; TCls cNone] else t.
 Definition model_pos (c : scase) (p : posin) : option ty :=
   match shrink_top (c_k c) (p_types p) with
   | Some t => if c_rewrite c then
-                match default_chain with Some rs => Some (rw_chain (c_h c) (c_bt c) rs t) | None => None end
-              else Some t
+                match default_chain with
+                | Some rs => Some (shown (p_default_none p) (rw_chain (c_h c) (c_bt c) rs t))
+                | None => None end
+              else Some (shown (p_default_none p) t)
   | None => None
   end.
 Definition find_anno (s : stubsum) (q p : string) : option (option ty) :=
